@@ -485,17 +485,21 @@ Definition set_comment (v : field) (c : str) : result field :=
   else if ends_nl c then Ok (mkF c (f_name v) (f_rest v))
   else Err ValueError.
 
-(** set_field_from_raw_string *)
-Definition set_raw (p : para) (k : key) (raw_value : str)
-           (pres : option bool) (fc : fcomment) : result para :=
-  do st <- match pres, fc with
-           | Some _, FCNone => Ok ([], pres, FCNone)
-           | Some _, _ => Err ValueError
-           | None, FCNone => Ok ([], None, FCNone)
-           | None, FCList l => do cs <- map_result format_comment l; Ok (cs, Some false, FCNone)
-           | None, FCElem t => Ok ([], Some false, FCElem t)
-           end;
-  let '(comments, pres, fc) := st in
+(** set_field_from_raw_string, first block: the two comment arguments.  Result: the formatted
+    comment lines that go in front of the new field text, and what is left of the arguments. *)
+Definition raw_args (pres : option bool) (fc : fcomment)
+  : result (list str * option bool * fcomment) :=
+  match pres, fc with
+  | Some _, FCNone => Ok ([], pres, FCNone)
+  | Some _, _ => Err ValueError
+  | None, FCNone => Ok ([], None, FCNone)
+  | None, FCList l => do cs <- map_result format_comment l; Ok (cs, Some false, FCNone)
+  | None, FCElem t => Ok ([], Some false, FCElem t)
+  end.
+
+(** set_field_from_raw_string, from [field_name, _, _ = _unpack_key(item)] on *)
+Definition set_raw_core (p : para) (k : key) (raw_value : str)
+           (comments : list str) (pres : option bool) (fc : fcomment) : result para :=
   let field_name := key_name k in
   do original <- match p_get p k true with
                  | LOk o => Ok o
@@ -521,6 +525,13 @@ Definition set_raw (p : para) (k : key) (raw_value : str)
              | _ => Ok v
              end);
   p_set_kvpair p k v.
+
+(** set_field_from_raw_string *)
+Definition set_raw (p : para) (k : key) (raw_value : str)
+           (pres : option bool) (fc : fcomment) : result para :=
+  do st <- raw_args pres fc;
+  let '(comments, pres, fc) := st in
+  set_raw_core p k raw_value comments pres fc.
 
 (** set_field_to_simple_value *)
 Definition set_simple (p : para) (k : key) (simple_value : str)
